@@ -1,7 +1,7 @@
 """C13 — updates and signed-only transfers require a valid, timely TSIG: guard sets of
 verify_message_byte / authorized_tsig / authorize_update / authorize_axfr, TSIG-last rule, update ordering, reply signing."""
 import re
-from api import shorten, Site
+from api import shorten, Site, writers
 
 EXPLANATION = (
     "GUARD/PATH rules (feature-full build; the baseline never compiles this code): (G1) TSigner::verify_message_byte returns Ok only "
@@ -16,7 +16,7 @@ EXPLANATION = (
     "returned by the handler leads to response.set_signature(signer.sign(encoded response)) or a SERVFAIL, never an unsigned "
     "success; TSigResponseContext::sign MACs request MAC + response + TSIG variables for the Signed kind and leaves BadSig/BadKey "
     "unsigned.")
-NOT_DECIDED = "HMAC itself; that one flipped bit changes tbv (follows only for octets shown to be inputs); client-side verification schedules."
+NOT_DECIDED = "HMAC itself; that one flipped bit changes tbv (follows only for octets shown to be inputs); the order in which a multi-message reply arrives (the client verifies whatever arrives, in arrival order, with the stored chained verifier - G4)."
 ASSUMPTIONS = ["FULL feature configuration (sqlite + dnssec-ring)", "Range<u64>::contains semantics"]
 
 S = 'hickory_server::store::sqlite::SqliteZoneHandler::'
@@ -189,3 +189,37 @@ def run(cx):
                  sample={'fn': 'TSIG::emit_tsig_for_mac', 'fields': seq, 'holds': seq == want})
         low = cx.calls(mf, r'BinEncoder<.*>::with_name_encoding$|BinEncoder::with_name_encoding$')
         cx.check('C13.Q1', len(low) == 1 and low[0].term.endswith('NameEncoding::UncompressedLowercase)'), mf.path, 'calls', 'names-in-canonical-wire-format', '; '.join(x.term[-60:] for x in low))
+
+    # ---------------------------------------------------------------- G4 client side: every message of a signed exchange is verified
+    # DnsMultiplexer keeps the TSigVerifier of a signed request in ActiveRequest.verifier for as long as the request is active
+    # (a zone transfer answers with many messages under one id; RFC 8945 5.3.1 chains their MACs).  A response is handed to the
+    # requester unverified only when the STORED verifier is None, and the verified arm uses the stored verifier in place -
+    # `take()`ing it out verifies the first message and waves every later one through.
+    mp = cx.fn('C13.G4', r'<hickory_net::xfer::dns_multiplexer::DnsMultiplexer<S> as futures_core::stream::Stream>::poll_next')
+    if mp:
+        ENT = r'OccupiedEntry::get_mut\(HashMap::entry\(arg1\.active_requests,.*\)@Occupied\.0\)'
+        sends = cx.calls(mp, r'Sender<.*>::try_send$|Sender::try_send$')
+        raw = [s_ for s_ in sends if re.search(r',Result::Ok\(', s_.term)]
+        ver = [s_ for s_ in sends if s_ not in raw]
+        cx.guard('C13.G4', raw, {'stored-verifier-is-None': rf'^!ok\({ENT}\.verifier\)$'}, expect=1, fn=mp)
+        for s_ in ver:
+            ok = bool(re.search(rf',Result::map_err\(TSigVerifier::verify\({ENT}\.verifier@Some\.0,DnsResponse::as_buffer\(', s_.term))
+            cx.check('C13.G4', ok, mp.path, s_.key(), 'signed-exchange-delivers-verify(stored verifier, received bytes)', s_.term[-260:], s_.loc)
+        cx.floor('C13.G4', len(ver), 1, 'verified deliveries in DnsMultiplexer::poll_next')
+        # nothing but verify() takes the verifier mutably; the field is written only when the request is created
+        others = []
+        for g in cx.prog.fns.values():
+            if not g.path.startswith('hickory_net::') and not g.path.startswith('<hickory_net::') or '::tests::' in g.path:
+                continue
+            for s_ in cx.calls(g, r'.'):
+                if re.search(r'^(Option::(take|replace|insert|get_or_insert\w*|take_if)|mem::(take|replace|swap))$', s_.label) and \
+                        re.search(r'active_requests.*\.verifier\b', s_.term):
+                    others.append(f'{g.path}: {s_.term[:100]}')
+        cx.check('C13.G4', not others, mp.path, 'verifier-field', 'stored-verifier-never-moved-out', '; '.join(others))
+        ws = {w[0].path for w in writers(cx.prog, r'^hickory_net::xfer::dns_multiplexer::ActiveRequest$', r'^verifier$') if w[4] == 'store'}
+        cx.check('C13.G4', not ws, mp.path, 'verifier-field', 'stored-verifier-never-overwritten', ', '.join(sorted(ws)))
+    sm = cx.fn('C13.G4', r'<hickory_net::xfer::dns_multiplexer::DnsMultiplexer<S> as hickory_net::xfer::DnsRequestSender>::send_message')
+    if sm:
+        nw = cx.calls(sm, r'ActiveRequest::new$')
+        ok = len(nw) == 1 and bool(re.search(r',phi\(Option::None\|Message::finalize\(var\(\w+\),arg1\.signer@Some\.0,Time::current_time\(\)\)@Ok\.0\)\)$', nw[0].term))
+        cx.check('C13.G4', ok, sm.path, 'call:ActiveRequest::new', 'verifier-stored=the-one-finalize-returned-for-this-request', nw[0].term[-200:] if nw else 'none')
